@@ -20,13 +20,14 @@ OBLIGATIONS = [
     "C08/P_trig_simplify_sound.v", "C08/P_ctor_sound.v", "C08/P_tab_value_sound.v",
     "C08/P_floor_ceiling_truncate_exact.v", "C08/P_floor_complex_refuted.v", "C08/P_sign_exact.v",
     "C08/P_sign_complex_refuted.v", "C08/P_abs_exact.v", "C08/P_max_min_fold_sound.v", "C08/P_kronecker_levi_exact.v",
-    "C08/P_gamma_exact.v", "C08/P_gamma_half_refuted.v", "C08/P_primepi_exact.v", "C08/P_primepi_refuted.v",
+    "C08/P_gamma_exact.v", "C08/P_primepi_exact.v",
+    "C08/P_sin_table_sound.v", "C08/P_inverse_tct_sound.v", "C08/P_inverse_cst_guarded.v", "C08/P_inverse_cst_refuted.v",
     "C08/P_nonvacuous.v",
 ]
 # C08's own Coq files in dependency order (until they are listed in coq/_CoqProject they are compiled here,
 # directly with coqc, whenever a source or a shared library they load has changed)
 OWN_FILES = ["C08/FuncModel.v", "C08/FuncSpec.v", "C08/TrigIdent.v", "C08/TrigArith.v", "C08/TrigProofs.v",
-             "C08/CtorProofs.v", "C08/ExactProofs.v"]
+             "C08/CtorProofs.v", "C08/ExactProofs.v", "C08/GammaProofs.v", "C08/TableDefs.v", "C08/TrigTables.v", "C08/TableProofs.v"]
 SHARED_DEPS = ["Base/Prelude.vo", "Base/Word64.vo", "Num/NumDefs.vo", "Gen/TypeCodes.vo",
                "Expr/ExprDefs.vo", "Expr/Hash.vo", "Expr/Cmp.vo", "Expr/Wf.vo", "Expr/IO.vo"]
 
@@ -185,9 +186,10 @@ def gen_exact(rng):
     if r < 0.88:
         if rng.random() < 0.5:
             return "G %d 1" % rng.randint(-4, 30)
-        return "G %d 2" % (2 * rng.randint(-12, 12) + 1)
+        return "G %d 2" % (2 * rng.randint(-40, 40) + 1)
     if r < 0.95:
-        return "PP (i %d)" % rng.choice([rng.randint(-5, 60), rng.randint(0, 3000), 2, 3, 4, 0, 1, 2999, 3001])
+        return "PP (i %d)" % rng.choice([rng.randint(-5, 60), rng.randint(0, 3000), 2, 3, 4, 0, 1, 2999, 3001, 3001,
+                                         2 ** 32 - 1 + rng.randint(1, 20), 2 ** 64 + rng.randint(-2, 2)])
     return "PR (i %d)" % rng.choice([rng.randint(-3, 40), rng.randint(1, 400)])
 
 
@@ -225,6 +227,11 @@ ORACLE_SYMS = ["x", "(neg x)", "(mul (i 2) x)", "(mul (i -3) x)", "(add x y)", "
                "(f1 conjugate x)", "(f1 abs x)", "(f1 exp x)", "(f1 gamma x)", "(f1 erf x)", "(mul (i 2) (f1 abs x))"]
 
 
+# functions whose evaluation loops or allocates proportionally to the magnitude of an exact argument
+# (factorial, harmonic sums): only moderate numbers are generated for them
+LOOPY = ("gamma", "loggamma", "digamma", "trigamma", "zeta", "dirichlet_eta", "lambertw")
+
+
 def gen_oracle(rng):
     r = rng.random()
     if r < 0.62:
@@ -234,7 +241,7 @@ def gen_oracle(rng):
             a = rng.choice(SPECIAL)
         elif q < 0.55:
             a = rng.choice(ORACLE_NUMS)
-        elif q < 0.6:
+        elif q < 0.6 and f not in LOOPY:
             a = gen_num(rng)
         else:
             a = rng.choice(ORACLE_SYMS)
@@ -270,7 +277,7 @@ CORPUS = [
     "MX max (i 3) (q 7 2) (i -1)", "MX max (i 3) oo (i 5)", "MX min -oo (i 3)", "MX max (i 1) (c 1 1 1 1)",
     "MX max oo (i 3)", "MX min (i 2) (i 2) (q 3 2)",
     "KD (i 3) (q 6 2)", "KD (i 3) (i 4)", "LC (i 1) (i 3) (i 2)", "LC (i 0) (i 1) (i 2) (i 3)", "LC (i 2) (i 2) (i 1)",
-    "G 5 1", "G 0 1", "G 7 2", "G 21 2", "G -21 2", "G 23 2", "G -23 2", "G -3 2",
+    "G 5 1", "G 0 1", "G 7 2", "G 21 2", "G -21 2", "G 23 2", "G -23 2", "G -3 2", "G 61 2", "G -59 2",
     "PP (i 100)", "PP (i -5)", "PP (i 4294967306)", "PR (i 10)", "PR (i -1)",
     "O asin (div (add (sqrt (i 3)) (i 1)) (mul (i 2) (sqrt (i 2))))", "O asin (div (sqrt (sub (i 5) (sqrt (i 5)))) (i 8))",
     "O acot (i -1)", "O acot (neg (sqrt (i 3)))", "O digamma (q 4 3)", "O digamma (q 5 4)", "O digamma (q 1 3)",
